@@ -1,5 +1,5 @@
 """Convenience layer for engine-C properties: one wrapper TU -> IR -> symbolic cases."""
-import os, random
+import os, random, time
 from .common import *
 from .runner import SymOb
 from . import build as B, symcase
@@ -18,10 +18,9 @@ class EngC:
         if case.tier == 'thorough' and s.chk.tier != 'thorough': return
         if '@' + case.func not in s.m.funcs:
             raise ToolFailure('wrapper %s not found in the IR' % case.func)
-        try:
-            n = symcase.validate_case(case, s.m, s.real, s.rng)
-        except ToolFailure:
-            raise
+        t0 = time.time()
+        n = symcase.validate_case(case, s.m, s.real, s.rng)
+        s.chk.validation['seconds'] = round(s.chk.validation.get('seconds', 0) + time.time() - t0, 2)
         s.chk.validation['vectors'] += n; s.chk.validation['functions'] += 1 if n else 0
         if n == 0: s.chk.validation.setdefault('not_validated', []).append(case.name)
         m = s.m; real = s.real
